@@ -1,6 +1,6 @@
 """C07 - compile-time and run-time parsing agree, for every buffer kind."""
 import os
-import families, report, vlib, emit, parsecheck, lr1, common_parse as cp
+import families, report, vlib, emit, parsecheck, lr1, kernel, buf_kernel, common_parse as cp
 
 def run(tier, seed):
     d = {g.name: g for g in families.g_dir() + families.g_err() + families.t_sets()}
@@ -13,6 +13,8 @@ def run(tier, seed):
                'constexpr-constructed vs run-time-constructed parser object (executing the constructor inside CBMC is out of reach, DESIGN 2.2)']
     assume = ['(a) solver: no undefined behaviour on the cstring_buffer parse path for any byte string of the stated length (accepted, syntactically wrong and lexically wrong alike)',
               '(b) concrete confirmation on solver-chosen inputs of each class: g++ and clang++ must accept the constexpr parse and its result must equal the run-time result']
+    # buffer kinds hand out the same slices (get_view kernel: cstring_buffer vs string_view_buffer)
+    kernel.run_kernels(R, buf_kernel.kernels(vlib.workdir('C07', fresh=False)))
     for n, Ls, ws, nl in plan:
         cp.run_parse_property('C07', tier, seed, [(d[n], Ls)], ['accept'], '', outside, assume, ws=ws, nl=nl, validate_cf=False, wit_every=1000, finish=False, R=R, defer=cases, mode='safety', tag='c')
     # (c) buffer kind: the same text in a user buffer that is a slice of larger storage (what lies behind end() is solver-chosen, not NUL): result, messages and positions
